@@ -725,6 +725,21 @@ func freshName(prefix string) string {
 
 // MkQuant builds forall/exists k in [lo,hi): body, re-expressed over absolute
 // array indices when the body indexes arrays at k plus a loop-invariant base.
+// boundVarsIn collects the names of quantifier-bound variables (they contain '?') in t.
+func boundVarsIn(t *Term, out map[string]bool) {
+	if t.Op == "var" && strings.Contains(t.Name, "?") {
+		out[t.Name] = true
+	}
+	for _, a := range t.Args {
+		boundVarsIn(a, out)
+	}
+}
+
+// outerBound: names of bound variables of enclosing quantifiers (set by the
+// contract evaluator); a base offset may mention those, but not variables bound
+// further inside.
+var outerBound = map[string]bool{}
+
 func MkQuant(forall bool, k *Term, lo, hi, body *Term) *Term {
 	var sels []*Term
 	collectSelects(body, k.Name, &sels)
@@ -749,9 +764,15 @@ func MkQuant(forall bool, k *Term, lo, hi, body *Term) *Term {
 		// them here, so only accept bases built from non-bound symbols
 		// (bound variable names contain '?').
 		okBase := true
-		for s := range b.atoms {
-			if strings.Contains(s, "?") {
-				okBase = false
+		for _, at := range b.terms {
+			vs := map[string]bool{}
+			boundVarsIn(at, vs)
+			for n := range vs {
+				// only the offset of a slice that depends on an enclosing bound
+				// variable (e.g. the v-th neighbour list) is a sensible base
+				if !outerBound[n] || at.Op != "s-off" {
+					okBase = false
+				}
 			}
 		}
 		if okBase {
@@ -878,7 +899,7 @@ func onlyBound(t *Term, name string) bool {
 	ok := true
 	var rec func(t *Term)
 	rec = func(t *Term) {
-		if t.Op == "var" && strings.Contains(t.Name, "?") && t.Name != name {
+		if t.Op == "var" && strings.Contains(t.Name, "?") && t.Name != name && !outerBound[t.Name] && !outerBound[strings.TrimSuffix(t.Name, "a")] {
 			ok = false
 		}
 		for _, a := range t.Args {
